@@ -79,9 +79,40 @@ func NewStakeCtrler(config *cfg.Config, govHandler ctrlertypes.IGovHandler, logg
 	}
 
 	// set `lastValidators` of StakeCtrler
-	_ = ret.UpdateValidators(int(govHandler.MaxValidatorCnt()))
+	ret.restoreLastValidators(govHandler)
 
 	return ret, nil
+}
+
+// restoreLastValidators rebuilds `lastValidators` as it was after the last EndBlock:
+// the validators selected, with the governance parameters of that block,
+// from the delegatees committed by the block before it.
+func (ctrler *StakeCtrler) restoreLastValidators(govHandler ctrlertypes.IGovHandler) {
+	maxVals, minStake := govHandler.MaxValidatorCnt(), govHandler.MinValidatorStake()
+
+	ver := ctrler.delegateeLedger.Version() - 1
+	if ver >= 1 {
+		if at, ok := govHandler.(interface {
+			GovParamsAt(int64) (*ctrlertypes.GovParams, xerrors.XError)
+		}); ok {
+			if params, xerr := at.GovParamsAt(ver); xerr == nil {
+				maxVals, minStake = params.MaxValidatorCnt(), params.MinValidatorStake()
+			}
+		}
+
+		if immuLedger, xerr := ctrler.delegateeLedger.ImmutableLedgerAt(ver, 128); xerr == nil {
+			minPower := ctrlertypes.AmountToPower(minStake)
+			_ = immuLedger.IterateReadAllItems(func(d *Delegatee) xerrors.XError {
+				if d.SelfPower >= minPower {
+					ctrler.allDelegatees = append(ctrler.allDelegatees, d)
+				}
+				return nil
+			})
+			sort.Sort(PowerOrderDelegatees(ctrler.allDelegatees))
+		}
+	}
+
+	_ = ctrler.updateValidators(int(maxVals))
 }
 
 func (ctrler *StakeCtrler) InitLedger(req interface{}) xerrors.XError {
